@@ -172,15 +172,39 @@ def shrink_case(ctx, obj, key):
         rc, log, go, dt = run_cases(ctx, [(cid, u, st, 'shrink') for cid, u, st in batch], 'shrink%d' % n[0], with_real=False)
         bad = set()
         for cid, u, st in batch:
-            if key == 'session-lost' and lost_sessions(go, cid)[0] and cid not in go['blocked']:
+            if key == 'deadlock':
+                if cid in go['blocked']:
+                    bad.add(cid)
+            elif key == 'session-lost' and lost_sessions(go, cid)[0] and cid not in go['blocked']:
                 bad.add(cid)
             elif key != 'session-lost' and any(sg == key for sg, _ in overlap.one_record_per_user(u, go['ses'].get(cid, []), go['orph'].get(cid, []))):
                 bad.add(cid)
         return bad
     small = overlap.shrink(judge, case['users'], case['steps'])
     if len(small) < len(case['steps']):
-        return dict(obj, case=dict(case, steps=small), original_case=case)
+        obj = dict(obj, case=dict(case, steps=small), original_case=case)
+        if key == 'deadlock':
+            # the goroutine dump and the waiting threads of the SHRUNK schedule
+            rc, log, go, dt = run_cases(ctx, [(case['id'], case['users'], small, 'shrunk')], 'shrunk', with_real=False)
+            cid = case['id']
+            if cid in go['blocked']:
+                obj['blocked_threads'] = go['blocked'][cid]
+                obj['implementation'] = go['obs'].get(cid)
+                if cid in go['hang'] and os.path.exists(go['hang'][cid]):
+                    obj['goroutines'] = lock_waiters(open(go['hang'][cid]).read())
     return obj
+
+
+def lock_waiters(dump):
+    """the goroutines of a dump that wait for a lock, with the first frames of /repo code (who waits where)"""
+    out = []
+    for blk in dump.split('\n\n'):
+        head = blk.split('\n', 1)[0]
+        if 'Mutex' in head or 'semacquire' in head:
+            frames = [ln.strip() for ln in blk.split('\n')[1:] if ln and not ln.startswith('\t')]
+            mine = [f for f in frames if 'Cloak/internal/server' in f and 'vfC17' not in f][:4] or [f for f in frames if 'Cloak/internal/server' in f][:2]
+            out.append(head + '  ' + ' <- '.join(f.split('/')[-1] for f in mine))
+    return '\n'.join(out)[:6000]
 
 
 def run_cases(ctx, cases, tag, with_real=True):
@@ -234,7 +258,7 @@ def correspondence(ctx, verdict, pr):
             if reported[key] <= 2:
                 if isinstance(obj.get('case'), dict):
                     known = any(f.get('status', 'open') == 'open' and re.fullmatch(f['signature'], sig) for f in vlib.known_findings(ctx.pid))
-                    if not known and reported[key] == 1 and key in ('session-lost', 'two-records-for-one-user', 'two-valves-for-one-user'):
+                    if not known and reported[key] == 1 and key in ('session-lost', 'two-records-for-one-user', 'two-valves-for-one-user', 'deadlock'):
                         obj = shrink_case(ctx, obj, key)
                     obj = dict(obj, schedule=overlap.describe(obj['case']['steps']))
                 verdict.oracle_failure(sig, what, obj)
@@ -259,7 +283,8 @@ def correspondence(ctx, verdict, pr):
             if cid in go['hang'] and os.path.exists(go['hang'][cid]):
                 dump = open(go['hang'][cid]).read()[:6000]
             report('deadlock:threads-%s-wait-forever' % '-'.join(map(str, go['blocked'][cid])),
-                                   'C17 oracle: operations blocked forever (nobody is parked, %d threads wait for locks)' % len(go['blocked'][cid]),
+                                   'C17 oracle: after everything that was held has been released, %d started calls never return: they wait for locks for ever (threads %s of scenario %s)' % (
+                                       len(go['blocked'][cid]), ','.join(map(str, go['blocked'][cid])), cid),
                                    dict(case=dict(id=cid, users=users, steps=steps), implementation=io, model=mo,
                                         blocked_threads=go['blocked'][cid], goroutines=dump, how=how))
         # oracle 2: at every quiescent moment every live session of a limited user is reachable from the panel
@@ -327,8 +352,13 @@ def search(ctx, verdict, problems):
                    schedule=overlap.describe(steps), no_longer_checks=[p[0] for p in problems][:6],
                    how='python3 tools/check.py C17 --replay <this file>')
         if cid in go['blocked']:
+            dump = ''
+            if cid in go['hang'] and os.path.exists(go['hang'][cid]):
+                dump = lock_waiters(open(go['hang'][cid]).read())
             found.append((len(steps), 'deadlock:threads-%s-wait-forever' % '-'.join(map(str, go['blocked'][cid])),
-                          'C17 oracle (search): operations blocked forever', obj))
+                          'C17 oracle (search): after everything that was held has been released, %d started calls never return: they wait for locks for ever (threads %s of scenario %s)' % (
+                              len(go['blocked'][cid]), ','.join(map(str, go['blocked'][cid])), cid),
+                          dict(obj, blocked_threads=go['blocked'][cid], goroutines=dump)))
         lost, when = lost_sessions(go, cid)
         for k in lost[:1]:
             # both known faces of F5 need a termination (CloseSession of a last session / TERMINATE) before the
@@ -345,7 +375,7 @@ def search(ctx, verdict, problems):
             break
         known = any(f.get('status', 'open') == 'open' and re.fullmatch(f['signature'], sig) for f in vlib.known_findings(ctx.pid))
         key = sig.split(':')[0]
-        if not known and key in ('session-lost', 'two-records-for-one-user', 'two-valves-for-one-user'):
+        if not known and key in ('session-lost', 'two-records-for-one-user', 'two-valves-for-one-user', 'deadlock'):
             obj = shrink_case(ctx, obj, key)
             obj['schedule'] = overlap.describe(obj['case']['steps'])
         if verdict.oracle_failure(sig, what, obj) == 'new':
